@@ -22,6 +22,16 @@ inductive Kind where
   | argument | authentication | authorization | communication | timeout | configuration | internal | noRule
 deriving DecidableEq, Repr, Inhabited
 
+/-- the two errors of Go's package `context`: what an outbound call, a cache access, … returns when the context it
+was given (heimdall hands `ctx.AppContext()`, i.e. the context of the request, to every mechanism) is done -/
+inductive CtxErr where
+  /-- `context.Canceled`: the client went away, or only closed its sending direction (net/http cancels the request
+  context when its background read sees EOF, also for a half-closed connection whose client still reads) -/
+  | canceled
+  /-- `context.DeadlineExceeded` -/
+  | deadlineExceeded
+deriving DecidableEq, Repr, Inhabited
+
 /-- error values -/
 inductive Err where
   /-- one of the sentinels `heimdall.ErrXxx` -/
@@ -30,6 +40,9 @@ inductive Err where
   | redirect (code : Int) (to : String)
   /-- any error of a type heimdall does not know (no `Unwrap`, `Is` never matches a heimdall target) -/
   | foreign
+  /-- `context.Canceled` / `context.DeadlineExceeded`: to heimdall just another foreign error (no `Unwrap`, `Is`
+  never matches a heimdall target); kept apart from `foreign` so that the theorems can speak about it -/
+  | ctxDone (c : CtxErr)
   /-- `fmt.Errorf("…: %w", e)` or any other wrapper with `Unwrap() error` -/
   | wrap (e : Err)
   /-- `errors.Join(es…)` / `fmt.Errorf` with several `%w` (`Unwrap() []error`) -/
@@ -45,6 +58,7 @@ mutual
     | .kind k', k => k' == k
     | .redirect _ _, _ => false
     | .foreign, _ => false
+    | .ctxDone _, _ => false
     | .wrap e, k => e.is k
     | .join es, k => Err.isAny es k
     | .chain es, k => Err.isAny es k
@@ -59,6 +73,7 @@ mutual
     | .kind _ => false
     | .redirect _ _ => true
     | .foreign => false
+    | .ctxDone _ => false
     | .wrap e => e.isRedirect
     | .join es => Err.isRedirectAny es
     | .chain es => Err.isRedirectAny es
@@ -73,6 +88,7 @@ mutual
     | .kind _ => none
     | .redirect c t => some (c, t)
     | .foreign => none
+    | .ctxDone _ => none
     | .wrap e => e.asRedirect
     | .join es => Err.asRedirectAny es
     | .chain es => Err.asRedirectAny es
@@ -468,5 +484,23 @@ def serveFailure (t : Translator) (cfg : Cfg) (acc : Accept) (hs : List (Cel × 
   match handleError hs cause ctx with
   | (_, some e) => t.respond cfg acc (plain e)
   | (ctx', none) => serve t cfg acc ctx'
+
+/-! ## the handlers of the services and the context of the request -/
+
+/-- state of the context of the request (`req.Context()` of net/http, the context of the RPC) at the moment the
+service gets the failure: still live, cancelled (client gone or half-closed), deadline exceeded -/
+inductive ReqCtx where
+  | live | cancelled | deadlineExceeded
+deriving DecidableEq, Repr, Inhabited
+
+/-- `(*handler).ServeHTTP` of `internal/handler/service` (decision and proxy services) and `Handler.Check` behind
+the error interceptor (Envoy gRPC service): the rule executor runs; a failure it returns goes to the translator, else
+`Finalize` decides (`serve`). `rc` is the state of the request's context at that moment: the handlers do not look
+at it — a failure is answered whether or not anybody is believed to be waiting. -/
+def handlerServe (t : Translator) (cfg : Cfg) (acc : Accept) (_rc : ReqCtx) (execErr : Option Err) (ctx : Ctx) :
+    Out :=
+  match execErr with
+  | some e => t.respond cfg acc (plain e)
+  | none => serve t cfg acc ctx
 
 end Heimdall.ErrMap
